@@ -17,12 +17,13 @@ SPEC = dict(
     run_timeout=3600,
     theorems=[_T + n for n in [
         "symbol_cse_first", "init_clears_state",
-        "llvm_table_agree", "llvm_differs_by_design", "llvm_kinds_cover_lambda",
-        "compileT_correct", "compileT_wellformed",
-        "initV_correct_plain", "initV_wellformed_plain", "initV_correct_cse",
-        "reinit_fresh", "no_stale_use",
-        "evalT_call_intrinsic", "evalT_relational", "evalT_square_eq_mul", "evalT_exp2_spec", "evalT_powi_spec",
-        "lower_add_shape", "lower_pw_two",
+        "llvm_table_agree", "llvm_differs_by_design", "relational_predicates", "rewrites_agree", "llvm_kinds_cover_lambda",
+        "compileT_correct", "initV_correct_plain", "reinit_fresh", "init_ok_state_clean",
+        "evalOp_fadd", "evalOp_fmul", "evalOp_square_eq_mul", "evalOp_call1", "evalOp_call2", "evalOp_exp2", "evalOp_powi",
+        "evalOp_relational", "evalT_pw", "lower_add_shape",
+    ]] + ["SymVerif.LLVMD." + n for n in [
+        "exec_append", "exec_length", "exec_prefix", "mkFBin_ok", "mkFCmp_ok", "mkBop_ok", "mkNot_ok", "mkUIToFP_ok", "emitOp_ok",
+        "compileT_sim", "compileTs_sim", "envOK_loads", "applyOuts_sim", "initV_plain", "initV_state_irrelevant",
     ]],
     partial=["C14_full (def, not asserted): LLVM's optimiser, instruction selection, JIT linking and the object-file round "
              "trip of dumps/loads are outside the kernel",
